@@ -363,6 +363,80 @@ func init() {
 		return nil, nil
 	}
 
+	// boxedRef: a reference that lives inside a large-value slab (a wrapper around a slab reference stored in a slab
+	// of its own, made through the public NewStorableSlab).  The storage is healthy: the referenced array is no root;
+	// deleting its register afterwards must be noticed.
+	boxedRef := func(tr *Trace, w *World, agg *Stats) (*Violation, *corruption) {
+		w2, v := buildWorld(tr)
+		if v != nil {
+			return nil, nil
+		}
+		var host *MCont
+		for _, r := range w2.Model.Roots() {
+			if !r.IsMap && !r.Volatile {
+				host = r
+				break
+			}
+		}
+		if host == nil {
+			return nil, nil
+		}
+		h, v := w2.handle(host)
+		if v != nil {
+			return nil, nil
+		}
+		x, err := atree.NewArray(w2.Storage, OwnerAddress(host.Owner), TypeInfo{N: 7})
+		if err != nil || x.Append(U64(99)) != nil {
+			return nil, nil
+		}
+		xid := RegIDOf(x.SlabID())
+		if err := h.(*atree.Array).Append(BoxedRef(x.SlabID())); err != nil {
+			return nil, nil
+		}
+		if err := w2.Storage.FastCommit(2); err != nil {
+			return nil, nil
+		}
+		c := corruption{Kind: "boxed-ref", Level: "api-committed", ID: xid}
+		want := map[RegID]bool{}
+		for _, r := range roots(w) {
+			want[r] = true
+		}
+		check := func(l *SimLedger, healthy bool) *Violation {
+			st, err := freshLoaded(l)
+			if err != nil {
+				return nil
+			}
+			got, err := atree.CheckStorageHealth(st, len(want))
+			if healthy {
+				if err != nil {
+					return &Violation{Class: "health.false-alarm", Msg: fmt.Sprintf("CheckStorageHealth rejects a healthy storage in which array %s is referenced from a large-value slab (a wrapper around a slab reference): %v", xid, err)}
+				}
+				gotSet := map[RegID]bool{}
+				for id := range got {
+					gotSet[RegIDOf(id)] = true
+				}
+				if regSetString(want) != regSetString(gotSet) {
+					return &Violation{Class: "health.roots", Msg: fmt.Sprintf("with array %s referenced from a large-value slab, CheckStorageHealth returns roots %s, model roots %s", xid, regSetString(gotSet), regSetString(want))}
+				}
+				return nil
+			}
+			if err == nil {
+				return &Violation{Class: "health.missed.delete-ref.register", Msg: fmt.Sprintf("CheckStorageHealth accepts a storage in which the register of array %s, referenced from a large-value slab, was deleted", xid)}
+			}
+			return nil
+		}
+		agg.Inc("health.corruption.boxed-ref.api-committed")
+		if v := check(w2.Ledger.Clone(), true); v != nil {
+			return v, &c
+		}
+		l := w2.Ledger.Clone()
+		delete(l.Regs, xid)
+		if v := check(l, false); v != nil {
+			return v, &c
+		}
+		return nil, nil
+	}
+
 	enumerate := func(w *World) []corruption {
 		var out []corruption
 		l := w.Ledger
@@ -475,6 +549,9 @@ func init() {
 				return finish(v, c)
 			}
 		}
+		if v, c := boxedRef(tr, w, agg); v != nil {
+			return finish(v, c)
+		}
 		cs := enumerate(w)
 		// every slab x every kind; the API-level ones rebuild the world, so large ledgers are sampled in quick
 		limit := 60
@@ -514,6 +591,8 @@ func init() {
 		}
 		if a.C == nil {
 			v = positive(w, agg)
+		} else if a.C.Kind == "boxed-ref" {
+			v, _ = boxedRef(tr, w, agg)
 		} else if a.C.Kind == "orphan.empty" {
 			if len(roots(w)) == 0 {
 				v, _ = emptyOrphans(w, agg)
